@@ -289,13 +289,19 @@ def HEntry.le (a b : HEntry) : Bool :=
   else if a.id1 ≠ b.id1 then decide (a.id1 < b.id1)
   else decide (a.id2 ≤ b.id2)
 
+/-- The comparison that decides which heap entry is popped next.  The implementation compares
+`(skip_isany, d, id(obj1), id(obj2))`; `HEntry.le` is that order with creation numbers for `id()`.
+Everything below is parametrised by an ARBITRARY comparison `le`, so the theorems hold for every
+way of breaking ties (in particular for every assignment of memory addresses). -/
+abbrev Cmp := HEntry → HEntry → Bool
+
 /-- Minimum of a non-empty heap and the remaining entries (`heapq.heappop`). -/
-def popMin : List HEntry → Option (HEntry × List HEntry)
+def popMin (le : Cmp) : List HEntry → Option (HEntry × List HEntry)
   | [] => none
   | e :: rest =>
-    match popMin rest with
+    match popMin le rest with
     | none => some (e, [])
-    | some (m, rest') => if e.le m then some (e, rest) else some (m, e :: rest')
+    | some (m, rest') => if le e m then some (e, rest) else some (m, e :: rest')
 
 structure GState where
   heap : List HEntry
@@ -314,8 +320,8 @@ def isany (plane : Plane.Plane) (k1 k2 : Nat) (a b : BB) : Bool :=
 def live (s : GState) (e : HEntry) : Bool := !s.done.contains e.id1 && !s.done.contains e.id2
 
 /-- One iteration of `while len(dists) > 0` (`none`: the heap is empty). -/
-def gtbStep (s : GState) : Option GState :=
-  match popMin s.heap with
+def gtbStep (le : Cmp) (s : GState) : Option GState :=
+  match popMin le s.heap with
   | none => none
   | some (e, heap) =>
     if !live s e then some { s with heap := heap } else
@@ -340,12 +346,12 @@ def gtbStep (s : GState) : Option GState :=
     | _, _ => some { s with heap := heap, err := true }
 
 /-- The `while` loop with fuel; the Boolean says whether the loop ended by itself. -/
-def gtbLoop : Nat → GState → GState × Bool
+def gtbLoop (le : Cmp) : Nat → GState → GState × Bool
   | 0, s => (s, s.heap.isEmpty)
   | fuel + 1, s =>
-    match gtbStep s with
+    match gtbStep le s with
     | none => (s, true)
-    | some s' => gtbLoop fuel s'
+    | some s' => gtbLoop le fuel s'
 
 /-- All pairs `(i, j)`, `i < j`, in the order of the two nested `for` loops. -/
 def initPairs (bbs : List BB) : List HEntry :=
@@ -366,8 +372,8 @@ structure Flags where
   err : Bool := false
 
 /-- `self.group_textboxes(laparams, textboxes)`. -/
-def groupTextboxes (pageBB : BB) (boxes : List Box) : List Node × Flags :=
-  let r := gtbLoop (gtbFuel boxes.length) (gtbInit pageBB boxes)
+def groupTextboxes (le : Cmp) (pageBB : BB) (boxes : List Box) : List Node × Flags :=
+  let r := gtbLoop le (gtbFuel boxes.length) (gtbInit pageBB boxes)
   ((Plane.iter r.1.plane).filterMap (fun o => r.1.nodes[o.id]?),
    { tie := r.1.tie, fuel := !r.2, err := r.1.err })
 
@@ -456,13 +462,13 @@ def Item.toChild : Item → Child
   | .other i => .other i
 
 /-- The text boxes in their final order, with analysed lines and indices. -/
-def finalBoxes (p : LAParams) (pageBB : BB) (boxes : List Box) : List Box × Option (List Node) × Flags :=
+def finalBoxes (le : Cmp) (p : LAParams) (pageBB : BB) (boxes : List Box) : List Box × Option (List Node) × Flags :=
   match p.boxes_flow with
   | none =>
     let bs := boxes.map Box.analyze
     (enumFrom 0 (bs.mergeSort (fun a b => tupleLe (getkey a) (getkey b))), none, {})
   | some bf =>
-    let r := groupTextboxes pageBB boxes
+    let r := groupTextboxes le pageBB boxes
     let groups := analyzeGroups bf r.1 0
     let leaves := groups.flatMap Node.leaves
     -- `textboxes` holds the very objects that are the leaves: look every box up by identity
@@ -470,7 +476,7 @@ def finalBoxes (p : LAParams) (pageBB : BB) (boxes : List Box) : List Box × Opt
     (bs.mergeSort (fun a b => decide (a.index ≤ b.index)), some groups, r.2)
 
 /-- `LTLayoutContainer.analyze`. -/
-def analyze (p : LAParams) (pageBB : BB) (items : List Item) : Result :=
+def analyze (le : Cmp) (p : LAParams) (pageBB : BB) (items : List Item) : Result :=
   let textobjs := items.filterMap Item.glyph?
   let otherobjs := items.filterMap Item.other?
   if textobjs.isEmpty then { children := items.map Item.toChild, groups := none, flags := {} } else
@@ -478,13 +484,13 @@ def analyze (p : LAParams) (pageBB : BB) (items : List Item) : Result :=
   let empties := (textlines.filter Line.isEmpty).map Line.analyze
   let textlines := textlines.filter (fun l => !l.isEmpty)
   let textboxes := groupTextlines p pageBB textlines
-  let r := finalBoxes p pageBB textboxes
+  let r := finalBoxes le p pageBB textboxes
   { children := r.1.map Child.box ++ otherobjs.map Child.other ++ empties.map Child.line,
     groups := r.2.1, flags := r.2.2 }
 
 /-- `LTFigure.analyze`. -/
-def analyzeFigure (allTexts : Bool) (p : LAParams) (bb : BB) (items : List Item) : Result :=
-  if allTexts then analyze p bb items
+def analyzeFigure (le : Cmp) (allTexts : Bool) (p : LAParams) (bb : BB) (items : List Item) : Result :=
+  if allTexts then analyze le p bb items
   else { children := items.map Item.toChild, groups := none, flags := {} }
 
 end PdfVerif.Layout
